@@ -58,9 +58,13 @@ Patches == {<<Rec(x, Remote)>> : x \in Terms}
 Checkpoints == UNION {{SubSeq(tree[l], 1, k) : k \in 1..Len(tree[l])} : l \in Logs}
 
 (* checkpoints offered to replace_all: the right one, the log's current    *)
-(* head (what a confused sender would use) and unrelated ones              *)
+(* head (what a confused sender would use), unrelated and forged ones      *)
+(* forged: a proof that carries the root of the new content but is not its *)
+(* head proof (another length; the proof of the first leaf)                *)
+Forged(p) == IF p = <<>> THEN {}
+             ELSE {<<"#length">> \o Evs(p)} \cup (IF Len(p) >= 2 THEN {<<"#leaf0">> \o Evs(p)} ELSE {})
 ReplaceCheckpoints(l, p) ==
-  ({Evs(p), tree[l]} \cup {<<x>> : x \in Terms}) \ {<<>>}
+  ({Evs(p), tree[l]} \cup {<<x>> : x \in Terms} \cup Forged(p)) \ {<<>>}
 
 Fits(l, n) == Len(store[l]) + n <= MaxLen /\ Total + n <= MaxTotal
 
